@@ -90,6 +90,11 @@ class Linear(Transform):
             self.cache.invalidate()
         return super().train(mode)
 
+    def _apply(self, fn, *args, **kwargs):
+        # dtype / device conversions: the cached matrices would keep the old dtype or device.
+        self.cache.invalidate()
+        return super()._apply(fn, *args, **kwargs)
+
     def _load_from_state_dict(self, *args, **kwargs):
         super()._load_from_state_dict(*args, **kwargs)
         # The cached matrices were computed from the previous parameters.
